@@ -17,3 +17,74 @@ package server
 // model (and with the keep-alive) it asked the scheduler for.
 //@   assert-at call GetRunner : arg2 == model && arg4 == keepAlive
 //@   assert-at return #5 : result.0 == runner.llama && result.1 == model
+
+// C01 (coverage extension, request side; was listed as not decided): the handlers that obtain a runner hand
+// scheduleRunner THE REQUEST'S OWN context - the value returned by c.Request.Context() for this very
+// request, evaluated for that call - not a background context (the reference would never be given
+// back: C02 drain) and not a derived one that ends earlier (the runner could be unloaded under the
+// handler). Every later use of the runner's server in the handler (Completion / Tokenize / Detokenize
+// / Embedding) is again given a context obtained from c.Request.Context(): the work on the runner is
+// bound to the lifetime that the scheduler's reference is bound to.
+//@ func (*Server).GenerateHandler
+//@   requires !heldany(runnerRef.refMu)     -- lock order (verif_contracts_lockorder.go): a gin handler is entered with no runner lock held (it may call expireRunner)
+//@   opt safe panic
+//@   assert-at call Context : arg0 == c.Request
+//@   ghost-at after call Context : ghost_rctx := result
+//@   assert-at call scheduleRunner : arg1 == ghost_rctx && arg0 == s
+//@   assert-at call Detokenize : arg1 == ghost_rctx && recv == r
+// the completion goroutines and the per-token callback of /api/generate (their blocks are merged with the C17 clauses in
+// verif_contracts_c17.go; no `opt` line here)
+//@ func (*Server).GenerateHandler$1
+//@   assert-at call Context : arg0 == c.Request
+//@   ghost-at after call Context : ghost_rctx := result
+//@   assert-at call Completion : arg1 == ghost_rctx && recv == r
+//@ func (*Server).GenerateHandler$1$1
+//@   assert-at call Context : arg0 == c.Request
+//@   ghost-at after call Context : ghost_rctx := result
+//@   assert-at call Tokenize : arg1 == ghost_rctx && recv == r
+//@ func (*Server).ChatHandler$1
+//@   assert-at call Context : arg0 == c.Request
+//@   ghost-at after call Context : ghost_rctx := result
+//@   assert-at call Completion : arg1 == ghost_rctx && recv == r
+//@ func (*Server).ChatHandler
+//@   requires !heldany(runnerRef.refMu)     -- lock order (verif_contracts_lockorder.go): a gin handler is entered with no runner lock held (it may call expireRunner)
+//@   opt safe panic
+//@   assert-at call Context : arg0 == c.Request
+//@   ghost-at after call Context : ghost_rctx := result
+//@   assert-at call scheduleRunner : arg1 == ghost_rctx && arg0 == s
+//@   assert-at call chatPrompt : arg0 == ghost_rctx
+// (appended for ext-c19, property C19) chatPrompt has definitional preconditions over the uninterpreted C19 spec functions
+// c19nsys / c19sidx / c19nimg (they DEFINE the counters over the message list passed; they restrict no input): assumed at the
+// call; the assert-at clauses below are C19's (the conversation handed to chatPrompt).
+//@   assume-at call chatPrompt #1 : c19nsys(0) == 0 && c19nimg(0) == 0
+//@   assume-at call chatPrompt #1 : forall j int :: 0 <= j && j < len(arg4) ==> c19nsys(j+1) == c19nsys(j) + ite(arg4[j].Role == "system", 1, 0)
+//@   assume-at call chatPrompt #1 : forall j int :: 0 <= j && j < len(arg4) && arg4[j].Role == "system" ==> c19sidx(c19nsys(j)) == j
+//@   assume-at call chatPrompt #1 : forall j int :: 0 <= j && j < len(arg4) ==> c19nimg(j+1) == c19nimg(j) + len(arg4[j].Images)
+//@   assume-at call chatPrompt #1 : forall j int :: 0 <= j && j <= len(arg4) ==> 0 <= c19nimg(j) && c19nimg(j) <= (1 << 40)
+//@   assert-at call chatPrompt #1 : len(arg4) >= 1
+//@   assert-at call chatPrompt #1 : len(arg4) == len(m.Messages) + len(req.Messages) + ite(req.Messages[0].Role != "system" && m.System != "", 1, 0)
+//@   assert-at call chatPrompt #1 : forall k int :: 0 <= k && k < len(m.Messages) ==> arg4[len(arg4) - len(req.Messages) - len(m.Messages) + k].Role == m.Messages[k].Role && arg4[len(arg4) - len(req.Messages) - len(m.Messages) + k].Content == m.Messages[k].Content
+//@   assert-at call chatPrompt #1 : (req.Messages[0].Role != "system" && m.System != "") ==> arg4[0].Role == "system" && arg4[0].Content == m.System
+//@   assert-at call chatPrompt #1 : arg1 == m && arg3 == opts && len(arg5) == len(req.Tools) && (len(arg5) > 0 ==> &arg5[0] == &req.Tools[0])
+//@   assert-at call append #2 : len(arg1) >= 1 && len(arg1) == len(req.Messages) && &arg1[0] == &req.Messages[0] && len(arg0) == len(m.Messages) && (len(arg0) > 0 ==> &arg0[0] == &m.Messages[0])
+//@   assert-at call append #3 : len(arg0) == 1 && arg0[0].Role == "system" && arg0[0].Content == m.System && len(arg1) == len(m.Messages) + len(req.Messages)
+//@ func (*Server).EmbedHandler
+//@   requires !heldany(runnerRef.refMu)     -- lock order (verif_contracts_lockorder.go): a gin handler is entered with no runner lock held (it may call expireRunner)
+//@   opt safe panic
+//@   assert-at call Context : arg0 == c.Request
+//@   ghost-at after call Context : ghost_rctx := result
+//@   assert-at call scheduleRunner : arg1 == ghost_rctx && arg0 == s
+//@   assert-at call Tokenize : arg1 == ghost_rctx && recv == r
+//@   assert-at call Detokenize : arg1 == ghost_rctx && recv == r
+//@ func (*Server).EmbedHandler$1
+//@   opt safe panic
+//@   assert-at call Context : arg0 == c.Request
+//@   ghost-at after call Context : ghost_rctx := result
+//@   assert-at call Embedding : arg1 == ghost_rctx && recv == r
+//@ func (*Server).EmbeddingsHandler
+//@   requires !heldany(runnerRef.refMu)     -- lock order (verif_contracts_lockorder.go): a gin handler is entered with no runner lock held (it may call expireRunner)
+//@   opt safe panic
+//@   assert-at call Context : arg0 == c.Request
+//@   ghost-at after call Context : ghost_rctx := result
+//@   assert-at call scheduleRunner : arg1 == ghost_rctx && arg0 == s
+//@   assert-at call Embedding : arg1 == ghost_rctx && recv == r
